@@ -180,9 +180,10 @@ func TestC15Send(t *testing.T) {
 		if r.Intn(10) == 0 {
 			attempts = gen0(r) // 0 or negative: the repository's tests use it as "no retry"
 		}
-		mode := r.Intn(10) // 0-5 plain, 6-7 cancel, 8 write failure, 9 stalled open + cancel
+		mode := r.Intn(12) // 0-5 plain, 6-7 cancel, 8 write failure, 9 stalled open + cancel, 10-11 short stream-open timeout (shorter than back-off pauses; a stalled open ends at it)
 		fh := &flakyHost{Host: h1, t0: time.Now(), pattern: pattern, stallNth: -1, writeErr: -1}
 		var cancelAt time.Duration = -1
+		openTO := time.Hour
 		switch {
 		case mode == 6 || mode == 7:
 			cancelAt = time.Duration(r.Intn(20000)) * time.Millisecond
@@ -191,10 +192,16 @@ func TestC15Send(t *testing.T) {
 		case mode == 9:
 			fh.stallNth = r.Intn(3)
 			cancelAt = time.Duration(500+r.Intn(5000)) * time.Millisecond
+		case mode >= 10:
+			openTO = time.Duration(50+r.Intn(2000)) * time.Millisecond
+			if r.Intn(2) == 0 {
+				fh.stallNth = r.Intn(3) // this attempt hangs until the open timeout: a failed attempt like any other
+			}
+			c.Count("short_open_timeout_cases", 1)
 		}
 		minB := time.Duration(100+r.Intn(1500)) * time.Millisecond
 		n1 := network.NewFromLibp2pHost(fh, network.RetryParameters(minB, 20*time.Second, attempts, 1+float64(r.Intn(4))),
-			network.SendMessageParameters(time.Hour, 10*time.Second))
+			network.SendMessageParameters(openTO, 10*time.Second))
 		n2 := network.NewFromLibp2pHost(h2)
 		n3 := network.NewFromLibp2pHost(h3)
 		r2, r3 := &recReceiver{}, &recReceiver{}
